@@ -218,9 +218,9 @@ func Run(sc *Scenario) *History {
 			t := rt.NewTask(tk.ID, fmt.Sprintf("task%d", tk.ID))
 			t.Adopt()
 			defer func() { rt.Release(); done <- i }()
-			if tk.StartNs > 0 {
-				time.Sleep(time.Duration(tk.StartNs))
-			}
+			// distinct start instants: two tasks that are released "at the same time" are ordered
+			// by the scenario (task id), never by the Go scheduler
+			time.Sleep(time.Duration(tk.StartNs + 1 + int64(tk.ID%1000)*3))
 			for j := range tk.Ops {
 				if rt.Stopped() {
 					return
@@ -784,13 +784,16 @@ func (h *History) Fingerprint() string {
 		if msgs[i].SentAt != msgs[j].SentAt {
 			return msgs[i].SentAt < msgs[j].SentAt
 		}
-		if msgs[i].Conn != msgs[j].Conn {
-			return msgs[i].Conn < msgs[j].Conn
+		if msgs[i].Task != msgs[j].Task {
+			return msgs[i].Task < msgs[j].Task
+		}
+		if msgs[i].ConnOrd != msgs[j].ConnOrd {
+			return msgs[i].ConnOrd < msgs[j].ConnOrd
 		}
 		return !msgs[i].ToClient && msgs[j].ToClient
 	})
 	for _, m := range msgs {
-		w("msg c%d %s t%d op%d toc=%v cmd=%d req=%v sent=%d del=%d fault=%s len=%d\n", m.Conn, m.Peer, m.Task, m.Op, m.ToClient, m.Cmd, m.Request, m.SentAt, m.DeliverAt, m.Fault, len(m.Raw))
+		w("msg c%d %s t%d op%d toc=%v cmd=%d req=%v sent=%d del=%d fault=%s len=%d\n", m.ConnOrd, m.Peer, m.Task, m.Op, m.ToClient, m.Cmd, m.Request, m.SentAt, m.DeliverAt, m.Fault, len(m.Raw))
 	}
 	for _, j := range h.Journal {
 		s := sha256.Sum256(j.Data)
